@@ -1,5 +1,5 @@
-use tgv_syntax::{c01, c02, c14};
+use tgv_syntax::{c01, c02, c04, c14};
 
 fn main() {
-    tgv_core::main_for(&[&c01::C01, &c02::C02, &c14::C14]);
+    tgv_core::main_for(&[&c01::C01, &c02::C02, &c04::C04, &c14::C14]);
 }
